@@ -597,8 +597,17 @@ func execHistory(h *history, sec *vh.Section, section string, quiet bool) (rp *e
 			r.quiesce()
 		case "create":
 			// everything written so far is acknowledged, flushed and its notification processed
+			// no notification of an earlier write may still be in flight (it would be processed by the new pipe): the
+			// write-event channel must have been empty for a number of consecutive polls
 			r.srv.FlushWait()
-			time.Sleep(100 * time.Millisecond)
+			for empty, t0 := 0, time.Now(); empty < 8 && time.Since(t0) < 10*time.Second; {
+				if r.srv.Parts.VerifC10WriteEventsQueued() == 0 {
+					empty++
+				} else {
+					empty = 0
+				}
+				time.Sleep(15 * time.Millisecond)
+			}
 			for i := range r.created {
 				r.created[i] = len(r.written[i])
 			}
@@ -1111,17 +1120,7 @@ type gate struct {
 	release chan struct{}
 }
 
-func installWriteHook() {
-	verifhook.Set("partition.write.beforeNotify", func() {
-		gateMu.Lock()
-		g := gates[goid()]
-		gateMu.Unlock()
-		if g != nil {
-			close(g.arrived)
-			<-g.release
-		}
-	})
-}
+func installWriteHook() { installGateHook("partition.write.beforeNotify") }
 
 func installGateHook(point string) {
 	verifhook.Set(point, func() {
